@@ -210,6 +210,49 @@ def relations(res, rng):
         0.43, progress_type="silent").states)
     pt = oqupy.pt_tempo_compute(bath=bath, start_time=0.0, end_time=0.43, parameters=par,
                                 progress_type="silent")
+    # the same process tensor computed straight into a file (its read path is separate)
+    ptf = oqupy.pt_tempo_compute(bath=bath, start_time=0.0, end_time=0.43, parameters=par,
+                                 process_tensor_file=True, progress_type="silent")
+    try:
+        stf = np.array(oqupy.compute_dynamics(sysm, initial_state=rho, process_tensor=ptf,
+                                              start_time=0.0, progress_type="silent").states)
+    finally:
+        ptf.close()
+        try:
+            ptf.remove()
+        except Exception:                                   # noqa: BLE001 - temp file clean-up only
+            pass
+    err = float(np.abs(stf - ref).max())
+    res.case("relation:pt-file", True, {"difference_to_Tempo": err})
+    if err > 1e-6:
+        res.fail("covariance:PtTempo: file-backed process tensor of a rotated problem",
+                 {"api": "pt_tempo_compute(process_tensor_file=True) + compute_dynamics",
+                  "difference": err})
+    # (c) mean-field TEMPO: rotating the problem of every species rotates its states, the field
+    #     is unchanged
+    vm = cases.rand_unitary(rng, 2)
+    out = {}
+    for tag, w in (("plain", np.eye(2, dtype=complex)), ("rotated", vm)):
+        wd = w.conj().T
+        tsys = oqupy.TimeDependentSystemWithField(
+            lambda t, a, w=w, wd=wd: w @ (0.4 * op.sigma("x") + 0.2 * np.real(a) * op.sigma("z")) @ wd)
+        mfs = oqupy.MeanFieldSystem(
+            [tsys], lambda t, st, a, w=w, wd=wd: -0.2j * a + 0.1 * np.trace(w @ op.sigma("x") @ wd @ st[0]))
+        ob = w @ (0.5 * op.sigma("z") + 0.1 * op.sigma("x")) @ wd
+        mft = oqupy.MeanFieldTempo(mean_field_system=mfs,
+                                   bath_list=[oqupy.Bath((ob + ob.conj().T) / 2, corr)],
+                                   initial_state_list=[w @ op.spin_dm("y+") @ wd], initial_field=1.0,
+                                   start_time=0.0,
+                                   parameters=oqupy.TempoParameters(dt=0.1, epsrel=1e-9, dkmax=3))
+        dyn = mft.compute(0.43, progress_type="silent")
+        out[tag] = (np.array(dyn.system_dynamics[0].states), np.array(dyn.fields))
+    back = np.array([vm.conj().T @ st @ vm for st in out["rotated"][0]])
+    err_s = float(np.abs(back - out["plain"][0]).max())
+    err_f = float(np.abs(out["rotated"][1] - out["plain"][1]).max())
+    res.case("relation:mean-field-covariance", True, {"states": err_s, "field": err_f})
+    if err_s > 1e-6 or err_f > 1e-6:
+        res.fail("covariance:MeanFieldTempo under a Haar change of basis",
+                 {"api": "MeanFieldTempo", "state_difference": err_s, "field_difference": err_f})
     for use in (1, 2, 3):
         st = np.array(oqupy.compute_dynamics(sysm, initial_state=rho, process_tensor=pt,
                                              start_time=0.0, progress_type="silent").states)
